@@ -29,7 +29,7 @@ def _staged(*stages):
                     continue
                 if name == 'sched' and 'case' not in keys and level not in ('falsy', 'nested-names', 'die-in-run'):
                     continue
-                if name == 'histories' and 'history' not in keys and level not in ('unreadable-entry', 'zero-duration', 'nested-names', 'second-interpreter'):
+                if name == 'histories' and 'history' not in keys and level not in ('unreadable-entry', 'zero-duration', 'nested-names', 'second-interpreter', 'mimic'):
                     continue
                 if name == 'interrupts' and level != 'tick-hang':
                     continue
